@@ -62,3 +62,38 @@ Example c12_example :
   map fst (st_apply nat 2 [] [(2,0);(4,0);(5,0);(6,0);(8,0);(8,1)]%nat) = [6;8]%nat /\
   st_restore nat (st_apply nat 2 [] [(2,0);(4,0);(5,0);(6,0);(8,0);(8,1)]%nat) None = Some (8,0)%nat.
 Proof. vm_compute. split; reflexivity. Qed.
+
+(* ---------- ties by translation (re-stated here so that THIS property's obligations break when the source they speak about
+   changes shape): gen/GenLoops.v is regenerated from $VERIF_REPO/src on every run *)
+From Coq Require Import QArith.
+From MdpaxV Require Import Model.Skeleton Proofs.SkeletonP.
+From MdpaxGen Require Import GenLoops.
+
+(* each solve() whose result this property speaks about = the interpretation of the skeleton translated from ITS source
+   (one step per pass, the stopping test, the periodic and the final save, the policy extraction) *)
+Theorem c12_vi_solve_follows_source : forall g eps SW POL t ckpt freq k st,
+  vi_solve g eps SW POL t ckpt freq k st =
+  run_skel vist vi_incr (vi_sweep_step g eps SW t) v_iter (vi_finish POL true) (fun s => s) ckpt freq vi_skel k st.
+Proof. exact vi_solve_is_skeleton. Qed.
+Print Assumptions c12_vi_solve_follows_source.
+Theorem c12_rvi_solve_follows_source : forall eps SW POL ckpt freq k st,
+  rvi_solve eps SW POL ckpt freq k st =
+  run_skel rvist rvi_incr (rvi_sweep_step eps SW) r_iter (rvi_finish POL true) (fun s => s) ckpt freq rvi_skel k st.
+Proof. exact rvi_solve_is_skeleton. Qed.
+Print Assumptions c12_rvi_solve_follows_source.
+Theorem c12_pvi_solve_follows_source : forall g eps SW POL clearflag ckpt freq k st,
+  pvi_solve g eps SW POL clearflag ckpt freq k st =
+  run_skel pvist pvi_incr (pvi_sweep_step g eps SW) p_iter (pvi_finish POL false false)
+           (fun s => if clearflag then pvi_clear s else s) ckpt freq pvi_skel k st.
+Proof. exact pvi_solve_is_skeleton. Qed.
+Print Assumptions c12_pvi_solve_follows_source.
+Theorem c12_savi_solve_follows_source : forall M g eps POL n mb d zidx pw pv perm t ckpt freq k st,
+  savi_solve M g eps POL n mb d zidx pw pv perm t ckpt freq k st =
+  run_skel savist savi_incr (savi_sweep_step M g eps n mb d zidx pw pv perm t) s_iter (savi_finish POL true) (fun s => s) ckpt freq savi_skel k st.
+Proof. exact savi_solve_is_skeleton. Qed.
+Print Assumptions c12_savi_solve_follows_source.
+Theorem c12_pi_solve_follows_source : forall g eps POL EV t me reset V0 ckpt freq k st,
+  pi_solve g eps POL EV t me reset V0 ckpt freq k st =
+  run_skel pist pi_incr (pi_improve_step g eps POL EV t me reset V0) pi_iter (fun s => s) (fun s => s) ckpt freq pi_skel k st.
+Proof. exact pi_solve_is_skeleton. Qed.
+Print Assumptions c12_pi_solve_follows_source.
